@@ -14,7 +14,7 @@ from .cstep import unchanged, apply_op, expected_model, check_model_vs_parse
 PROPERTY = "C17"
 META = {
     "explanation": "symbolic execution of the real Tdf.new / Tdf.copy / open path on a symbolic file system: contents and geometry of existing files are solver variables; the created file is parsed by the independent parser",
-    "bounds": {"quick": {"existing_target": "TDF with N in {1,2} and 0-2 live blocks (symbolic), raw files of 0-20 symbolic bytes", "source": "N=2 with 0-2 live blocks"},
+    "bounds": {"quick": {"existing_target": "TDF with N in {1,2} and 0-2 live blocks (symbolic), raw files of 0-20 symbolic bytes", "source": "N=2 with 0-2 live blocks; three concrete sources of about 200 KB with long zero runs (scale instances, executed, not solver claims)"},
                "thorough": {"existing_target": "TDF with N in 1-4 and 0-3 live blocks, raw files of 0-300 symbolic bytes", "source": "N in {1,2,3,4,6} with 0-3 live blocks, every target kind"}},
     "outside_bounds": ["directories, permissions, dangling or cyclic symlinks, hard links, races between exists() and open()", "I/O errors"],
     "assumptions": ["SymFS: exists/open/stat/copyfile as modelled (copyfile = byte copy of the committed content; symbolic links to regular files are followed by exists/open/stat and by copyfile unless follow_symlinks=False, which duplicates the link)", "datetime.now() arbitrary within 32-bit seconds"],
